@@ -14,7 +14,7 @@ def Res.isErr : Res → Bool
 
 theorem frameE_fail (c : Chan) (x : Res) : (fail c x).c = c := rfl
 
-theorem frameE_validate (c : Chan) (n info : Nat) (sv pk : Bool)
+theorem frameE_validate (c : Chan) (n info : Nat) (sv : SigFact) (pk : Bool)
     (h : (validate c n info sv pk).out.res.isErr = true) : (validate c n info sv pk).c = c := by
   revert h
   unfold validate fail
@@ -26,7 +26,7 @@ theorem frameE_validate (c : Chan) (n info : Nat) (sv pk : Bool)
     | (simp [Res.isErr] at h; done)
 
 /-- what an accepted validate did -/
-theorem validate_ok_cases (c : Chan) (n info : Nat) (sv pk : Bool)
+theorem validate_ok_cases (c : Chan) (n info : Nat) (sv : SigFact) (pk : Bool)
     (h : (validate c n info sv pk).out.res = .ok) :
     (validate c n info sv pk).c = c ∨
     (n = c.next ∧ c.closed = false ∧ (validate c n info sv pk).c = { c with nextInfo := some info }) := by
@@ -39,21 +39,23 @@ theorem validate_ok_cases (c : Chan) (n info : Nat) (sv pk : Bool)
     · rename_i hp
       split
       · intro h; simp at h
-      · intro _
-        split
-        · rename_i hn
-          right
-          refine ⟨hn, ?_, rfl⟩
-          unfold holderPolicy at hp
-          repeat' split at hp
-          all_goals first
-            | (simp at hp; done)
-            | skip
-          rename_i hcl
-          cases hc : c.closed with
-          | false => rfl
-          | true => exact absurd ⟨hn, hc⟩ hcl
-        · left; rfl
+      · split
+        · intro h; simp at h
+        · intro _
+          split
+          · rename_i hn
+            right
+            refine ⟨hn, ?_, rfl⟩
+            unfold holderPolicy at hp
+            repeat' split at hp
+            all_goals first
+              | (simp at hp; done)
+              | skip
+            rename_i hcl
+            cases hc : c.closed with
+            | false => rfl
+            | true => exact absurd ⟨hn, hc⟩ hcl
+          · left; rfl
     · intro h
       rename_i r hr
       simp at h
